@@ -60,6 +60,21 @@ async def _handshake_scenario(ctx, k):
     if k % 3 == 2:
         third.snoop_device("CAM", "TXT")
     await sess.quiesce()
+    # the camera driver withdraws a property nobody was ever told about, and one it withdrew before: every client - also those
+    # registered after the in-process ones - must still be served afterwards
+    if k % 2:
+        try:
+            router.process_message(M.DelProperty(device="CAM", name="NEVER_DEFINED"), sender=drv)
+            tv_ = D.vector_of(drv, "g", "t")
+            tv_.enabled = False
+            router.process_message(M.DelProperty(device="CAM", name="TXT"), sender=drv)      # a second time
+            tv_.enabled = True
+            await sess.quiesce()
+            ctx.count("repeated_or_unknown_delProperty_before_the_traffic")
+        except Exception as e:
+            ctx.violate(f"device-message-raises-back-into-the-driver:{type(e).__name__}", f"a delProperty fanned out by the router raised {e!r} in the sending driver",
+                        {"mode": "handshake", "k": k})
+            return
     marks = [len(l.s_writer.data) for l in client._vf_links]
     nsn = len(stack.client_view(snoop).get("CAM", {}))
     D.element_of(drv, "g", "t", "e0").value = f"text{k}"
